@@ -39,16 +39,16 @@ def loop_block(ctx):
     loops = [x for x in walk(fn["body"], into_closures=False) if x.get("k") == "for" and any(cal == "network::Network::_forward" for _, cal in calls(x["body"]))]
     lp = loops[0]
     ih = pat_binds(lp["pat"])[0][1]
-    blk = [s for s in top_stmts_of(lp["body"]) if s.get("k") == "if" and any(x.get("k") == "mcall" and hm(x["callee"], "contains_key") and "loopbacks" in pretty(x["recv"]) for x in walk(s["c"]))]
+    blk = [s for s in top_stmts_of(lp["body"]) if s.get("k") == "if" and any(x.get("k") == "mcall" and (hm(x["callee"], "contains_key") or hm(x["callee"], "get")) and "loopbacks" in pretty(x["recv"]) for x in walk(s["c"]))]
     if len(blk) != 1:
-        raise Unestablished("expected one `if self.loopbacks.contains_key(..)` block", c.loc(fn, lp))
+        raise Unestablished("expected one `if self.loopbacks.contains_key(..)` / `if let Some(..) = self.loopbacks.get(..)` block", c.loc(fn, lp))
     return fn, lp, ih, blk[0]
 
 
 def r1(ctx):
     c = ctx.crate
     fn, lp, ih, blk = loop_block(ctx)
-    ck = [x for x in walk(blk["c"]) if x.get("k") == "mcall" and x["name"] == "contains_key"][0]
+    ck = [x for x in walk(blk["c"]) if x.get("k") == "mcall" and x["name"] in ("contains_key", "get") and "loopbacks" in pretty(x["recv"])][0]
     ctx.check("R17.1", "guard-key-is-layer-index", e4.local_hid(ck["args"][0]) == ih, "loop-guard-key", c.loc(fn, blk), "contains_key(&i)")
     # must come after the layer's own forward in the loop body
     st_outer = top_stmts_of(lp["body"])
@@ -58,7 +58,13 @@ def r1(ctx):
     tl = [s for s in st if s.get("k") == "let" and s["pat"].get("k") == "tuple"]
     ok = False
     into_h = it_h = sk_h = None
-    if tl:
+    cnd_ = strip(blk["c"])
+    if cnd_.get("k") == "letx" and ck["name"] == "get" and e4.arm_variant({"pat": cnd_["pat"]})[0].endswith("Some") and len(pat_binds(cnd_["pat"])) == 3 \
+            and strip(cnd_["init"]) is ck:
+        # `if let Some(&(into, iterations, inskips)) = self.loopbacks.get(&i)`: the stored triple, bound by the guard itself
+        into_h, it_h, sk_h = (h for (_, h) in pat_binds(cnd_["pat"]))
+        ok = True
+    elif tl:
         init = strip(tl[0]["init"])
         pb = pat_binds(tl[0]["pat"])
         ok = init.get("k") == "index" and "self.loopbacks" in pretty(init["b"]) and e4.local_hid(init["i"]) == ih and len(pb) == 3
@@ -253,31 +259,71 @@ def r3(ctx):
     need = {e1.cmp_atom("Ge", Rat.atom("into"), L, integer=True), e1.cmp_atom("Lt", Rat.atom("outof"), Rat.atom("into"), integer=True)}
     parts_ok = need <= known_false
     ctx.check("R17.3", "index-validation", okk and parts_ok, "index-validation:" + short(cond, 90), c.loc(fn, first), "rejects into >= len and outof < into")
-    lets = {s["pat"]["name"]: s for s in st if s.get("k") == "let" and s["pat"].get("k") == "bind"}
-    oki = "inputs" in lets and pretty(strip(strip(lets["inputs"]["init"])["scrut"])) == "self.layers[into]" and all(".inputs" in pretty(a["body"]) for a in strip(lets["inputs"]["init"])["arms"])
-    oko = "outputs" in lets and pretty(strip(strip(lets["outputs"]["init"])["scrut"])) == "self.layers[outof]" and all(".outputs" in pretty(a["body"]) for a in strip(lets["outputs"]["init"])["arms"])
-    asr = [x for x in walk(fn["body"]) if x.get("mac") == "assert_eq_shape" and x.get("k") == "if"]
-    oka = len(asr) == 1 and sorted([pretty(strip(strip(asr[0]["c"])["l"])), pretty(strip(strip(asr[0]["c"])["r"]))]) == ["inputs", "outputs"]
-    ctx.check("R17.3", "shape-equality-asserted", oki and oko and oka, "loop-shape-check", c.loc(fn), "assert_eq_shape!(layers[into].inputs, layers[outof].outputs)")
-    fl = [s for s in st if s.get("k") == "for"]
+    # shape agreement and loop counts, decided on the E6 effect summary of loopback
+    from .. import e6
+    E = e6.Exec(c, fn)
+    fpaths = [p for p in E.run_fn() if p.exit is None or p.exit[0] == "return"]
+    Lyr = ("field", ("p", "self"), "layers")
+    pin, pout, pit = ("p", "into"), ("p", "outof"), ("p", "iterations")
+
+    def shape_of(layer_idx, field, facts):
+        """terms that denote `layers[idx].<field>`: the accessor call, or the field of the payload of the variant known on this path"""
+        el = ("idx", Lyr, layer_idx)
+        out = [("call", "network::Layer::" + field, (el,))]
+        for (t, pol) in facts:
+            if pol and isinstance(t, tuple) and t[0] == "is" and t[1] == el:
+                out.append(("field", ("payload", el, t[2], 0), field))
+        return out
+    oka = bool(fpaths)
+    for p in fpaths:
+        A = shape_of(pin, "inputs", p.pc)
+        B = shape_of(pout, "outputs", p.pc)
+        found = False
+        for (t, pol) in p.pc:
+            if isinstance(t, tuple) and t[0] == "bin" and t[1] in ("Eq", "Ne") and ((t[1] == "Eq") == pol):
+                if (t[2] in A and t[3] in B) or (t[3] in A and t[2] in B):
+                    found = True
+        oka = oka and found
+    ctx.check("R17.3", "shape-equality-asserted", oka, "loop-shape-check", c.loc(fn), "every non-panicking path has established layers[into].inputs == layers[outof].outputs")
     okl = False
-    if len(fl) == 1:
-        rb = range_bounds(c, fl[0]["iter"], env0)
-        rng_ok = rb is not None and rb[0] == Rat.atom("into") and rb[1] == Rat.atom("outof") + 1
-        kh = pat_binds(fl[0]["pat"])[0][1]
-        m = [x for x in walk(fl[0]["body"]) if x.get("k") == "match"]
-        arms_ok = True
+    why = ""
+    for p in fpaths[:1]:
+        loops_ = [e for e in p.eff if e[0] == "loop" and E.loop_summaries[e[1]].get("kind") == "for"
+                  and any(f[0] == "set" and isinstance(f[1], tuple) and f[1][0] == "field" and f[1][2] == "loops" for bp in E.loop_summaries[e[1]]["paths"] for f in bp.eff)]
+        if len(loops_) != 1:
+            why = "%d loops raise `loops`" % len(loops_)
+            break
+        lid, it = loops_[0][1], loops_[0][2]
+        el = ("elem", it, lid)
+        rng = e6.range_of(it)
+        want_rng = (pin, e6.mk_bin("Add", pout, ("lit", "1")))
+        if rng is not None:
+            scrut = ("idx", Lyr, el)
+            dom_ok = rng == want_rng
+        else:
+            scrut = el
+            dom_ok = isinstance(it, tuple) and it[0] == "idx" and it[1] == Lyr and e6.range_of(it[2]) == want_rng
         n = 0
-        for arm in (m[0]["arms"] if m else []):
-            vp, b = e4.arm_variant(arm)
-            kind = vp.split("::")[-1]
-            if kind in ("Dense", "Convolution", "Deconvolution", "Maxpool"):
+        arms_ok = True
+        for v in ("Dense", "Convolution", "Deconvolution", "Maxpool"):
+            vp = "network::Layer::" + v
+            mine = [bp for bp in E.loop_summaries[lid]["paths"] if bp.exit is None and e6.variant_of(bp).get(scrut) == vp]
+            if len(mine) != 1:
+                arms_ok = False
+                continue
+            pay = ("payload", scrut, vp, 0)
+            sets = [f for f in mine[0].eff if f[0] == "set" and isinstance(f[1], tuple) and f[1][0] == "field" and f[1][2] == "loops"]
+            want = e6.mk_bin("Add", ("field", pay, "loops"), ("cast", pit, "f32"))
+            if len(sets) == 1 and e6.strip_upd(sets[0][2]) == want:
                 n += 1
-                inc = [x for x in walk(arm["body"]) if x.get("k") == "assignop" and x["op"].startswith("Add") and pretty(strip(x["l"])) == "%s.loops" % b[0][0]
-                       and cpretty(x["r"], TT) == "(iterations as _)"]
-                arms_ok = arms_ok and len(inc) == 1
-        okl = bool(rng_ok) and arms_ok and n == 4 and bool(m) and cpretty(m[0]["scrut"], TT) == "self.layers[k]"
-    ctx.check("R17.3", "loop-counts-raised", okl, "loop-count-update", c.loc(fn), "for k in into..outof+1: layer.loops += iterations")
+            else:
+                arms_ok = False
+                why = "%s: %s" % (v, [e6.show(f[2], 2) for f in sets])
+        okl = dom_ok and arms_ok and n == 4
+        if not dom_ok:
+            why = "layers walked: %s" % e6.show(it, 2)
+    ctx.check("R17.3", "loop-counts-raised", okl, "loop-count-update:" + short(why, 60), c.loc(fn), "for every layer in into..=outof: layer.loops += iterations",
+              "the repeat count of the layers in the loop range is not raised by `iterations` for exactly layers into..=outof: %s" % why)
     ins = [x for x in walk(fn["body"]) if x.get("k") == "mcall" and x["name"] == "insert"]
     # the stored components are the caller's arguments themselves (parameters by identity, not a re-bound / adjusted copy)
     ok = False
